@@ -14,7 +14,7 @@
    trimming and ASCII whitespace, and is parametric in the six delimiters (a plain record of
    its own) and in `inside_ends`: the judgement "an expression/tag interior starting here ends
    there" — expressions are opaque for this property. *)
-From TeraV Require Import Model.Utf8.
+From TeraV Require Import Model.Utf8Lex.
 Local Open Scope N_scope.
 
 Inductive item :=
